@@ -112,11 +112,30 @@ class MocksEmitter:
 
     def _group_operations_by_tag(self, spec: IRSpec) -> dict[str, list[IROperation]]:
         """Group operations by their OpenAPI tag."""
-        operations_by_tag: dict[str, list[IROperation]] = defaultdict(list)
+        # Group exactly as EndpointsEmitter and ClientVisitor do, so that every tag client has a mock with the same
+        # methods: an operation belongs to each of its tags, tags differing only in case or punctuation share one
+        # client, and the canonical spelling of such a tag is chosen by the same score.
+        import re
 
+        ops_by_key: dict[str, list[IROperation]] = {}
+        candidates_by_key: dict[str, list[str]] = {}
         for operation in spec.operations:
-            tag = operation.tags[0] if operation.tags else "default"
-            operations_by_tag[tag].append(operation)
+            for tag in operation.tags or ["default"]:
+                key = NameSanitizer.normalize_tag_key(tag)
+                ops_by_key.setdefault(key, []).append(operation)
+                candidates_by_key.setdefault(key, []).append(tag)
+
+        def tag_score(t: str) -> tuple[bool, int, int, str]:
+            is_pascal = bool(re.search(r"[a-z][A-Z]", t)) or bool(re.search(r"[A-Z]{2,}", t))
+            words = re.findall(r"[A-Z]?[a-z]+|[A-Z]+(?![a-z])|[0-9]+", t)
+            words += re.split(r"[_-]+", t)
+            word_count = len([w for w in words if w])
+            upper = sum(1 for c in t if c.isupper())
+            return (is_pascal, word_count, upper, t)
+
+        operations_by_tag: dict[str, list[IROperation]] = defaultdict(list)
+        for key, ops_for_key in ops_by_key.items():
+            operations_by_tag[max(candidates_by_key[key], key=tag_score)].extend(ops_for_key)
 
         return operations_by_tag
 
